@@ -296,3 +296,138 @@ func hierarchyReaders(r *vh.Rng, sum *vh.Summary, cw *vh.CaseWriter, n int) {
 		}
 	}
 }
+
+
+// fatalAfterTarget: inputs that END IN A FATAL ERROR right after >= 1 delivered target instance,
+// while the stack frame of the target declaration is still on top: the unit right after a target
+// instance is corrupted (EDI: a segment without a name; csv2: an unterminated quote), or fits no
+// declaration, or the target's min occurs is not met when a non-matching unit or EOF arrives.
+// The target is top-level or inside a (repeating) wrapper; target records, target groups.
+func fatalAfterTarget(r *vh.Rng, sum *vh.Summary, cw *vh.CaseWriter, n int) {
+	for i := 0; i < n; i++ {
+		g := &hgen{r: r}
+		ending := []string{"corrupted", "undeclared", "min-unmet-other", "min-unmet-eof", "corrupted-then-more"}[r.Pick(5)]
+		minT := 1 + r.Pick(3)
+		if ending == "min-unmet-other" || ending == "min-unmet-eof" {
+			minT = 2 + r.Pick(2)
+		}
+		maxT := []int{-1, minT, minT + 1}[r.Pick(3)]
+		var t *hdecl
+		switch r.Pick(4) {
+		case 0:
+			t = g.grp(minT, maxT, g.rec(1, 1), g.rec(0, 1))
+		case 1:
+			t = g.rec(minT, maxT, g.rec(0, 1))
+		default:
+			t = g.rec(minT, maxT)
+		}
+		t.Target = true
+		var top []*hdecl
+		hdr := r.Chance(0.6)
+		if hdr {
+			top = append(top, g.rec(0, 1))
+		}
+		wrapped := r.Chance(0.5)
+		var w *hdecl
+		if wrapped {
+			w = g.rec(0, g.wrapperMax(), t)
+			top = append(top, w)
+		} else {
+			top = append(top, t)
+		}
+		trailer := g.rec(0, 1)
+		top = append(top, trailer)
+		fixGroups(g, top)
+		// the input: header?, [wrapper line], k target instances, the ending
+		var us []hunit
+		id := 0
+		add := func(name string) { id++; us = append(us, hunit{name: name, id: id}) }
+		var inst func(d *hdecl)
+		inst = func(d *hdecl) {
+			if !d.Group {
+				add(d.Name)
+			}
+			for _, k := range d.Kids {
+				if k.Min > 0 || r.Chance(0.5) {
+					inst(k)
+				}
+			}
+		}
+		if hdr {
+			add(top[0].Name)
+		}
+		rounds := 1
+		if wrapped && r.Chance(0.5) {
+			rounds = 2 // a complete wrapper instance first, the failing one second
+		}
+		for round := 0; round < rounds; round++ {
+			if wrapped {
+				add(w.Name)
+			}
+			k := minT
+			if round == rounds-1 && (ending == "min-unmet-other" || ending == "min-unmet-eof") {
+				k = 1 + r.Pick(minT-1) // at least one delivered instance, fewer than min
+			} else if maxT < 0 || maxT > minT {
+				k = minT + r.Pick(2)
+			}
+			for j := 0; j < k; j++ {
+				inst(t)
+			}
+		}
+		switch ending {
+		case "corrupted":
+			us = append(us, hunit{name: "!corrupt"})
+		case "corrupted-then-more":
+			us = append(us, hunit{name: "!corrupt"})
+			add(t.Kids0Name())
+			add(trailer.Name)
+		case "undeclared":
+			us = append(us, hunit{name: "Z", id: 9999})
+		case "min-unmet-other":
+			add(trailer.Name)
+		}
+		filter := r.Chance(0.3)
+		for _, format := range []string{"edi", "csv2", "fixedlength2"} {
+			if format != "edi" && r.Chance(0.5) {
+				continue
+			}
+			schema := hierSchema(format, top, filter)
+			in := hierInputCorrupt(format, us)
+			kind := "fatal-after-target:" + ending
+			sum.Hist("hierarchy:" + format + ":" + kind)
+			auditTransform(sum, cw, format, schema, in, kind, nil, r.Chance(0.5), true)
+			auditTransform(sum, cw, format, schema, in, kind+"+direct", nil, r.Chance(0.5), true, true)
+			if r.Chance(0.3) {
+				auditTransform(sum, cw, format, schema, in, kind, nil)
+			}
+		}
+	}
+}
+
+// Kids0Name: the name of the unit an instance of d starts with
+func (d *hdecl) Kids0Name() string {
+	for d.Group && len(d.Kids) > 0 {
+		d = d.Kids[0]
+	}
+	return d.Name
+}
+
+// hierInputCorrupt renders units; the pseudo unit "!corrupt" is a unit the format's tokenizer rejects
+func hierInputCorrupt(format string, us []hunit) []byte {
+	var out []byte
+	for _, u := range us {
+		if u.name != "!corrupt" {
+			out = append(out, hierInput(format, []hunit{u})...)
+			continue
+		}
+		switch format {
+		case "edi":
+			out = append(out, []byte("*oops~")...) // a segment without a name
+		case "csv2":
+			out = append(out, []byte("\"unterminated,1,K\n")...)
+		default:
+			out = append(out, []byte("?\n")...) // fits no declaration (too short for any column, unknown name)
+		}
+	}
+	return out
+}
